@@ -302,7 +302,7 @@ def _pinned(atoms, seed=0):
     return out
 
 
-def solve(ob: Obligation, timeout_s=60.0, conditioned=True, confirm=None):
+def solve(ob: Obligation, timeout_s=60.0, conditioned=True, confirm=None, canary=False):
     """Decide an obligation.  Returns Result(status in unsat/sat/unknown).
 
     confirm(values, bvalues) -> bool : optional replay on the real code; used to accept a witness obtained from
@@ -317,6 +317,21 @@ def solve(ob: Obligation, timeout_s=60.0, conditioned=True, confirm=None):
         if has_defined:
             SOLVER_STATS["abstract_unsat"] += 1
         return Result("unsat", solver_s=t_total, detail="abstract" if has_defined else "exact")
+    if canary and has_defined:
+        # A canary guards against vacuity of the query that DISCHARGES the real obligations, which is the abstract one:
+        # it is refuted as soon as the abstract query (same assumptions, atom axioms dropped) has a model.
+        if r == "sat":
+            SOLVER_STATS["sat"] += 1
+            vals, bv, m = _model_values(s, atoms, bvars)
+            return Result("sat", vals, bv, t_total, "abstract query satisfiable (canary)", m)
+        pins = _pinned(atoms, seed=len(atoms))
+        extra = "\n".join(f"(assert (= {_aname(i)} {_rat(v)}))" for i, v in pins)
+        r0, s0, dt0 = _z3_check(script + "\n" + extra, min(timeout_s, 20.0))
+        t_total += dt0
+        if r0 == "sat":
+            SOLVER_STATS["sat"] += 1
+            vals, bv, m = _model_values(s0, atoms, bvars)
+            return Result("sat", vals, bv, t_total, "abstract query satisfiable at a pinned point (canary)", m)
     if has_defined:
         if confirm is not None and r in ("sat", "unknown"):
             # candidate witness: the abstract query pinned to a generic point of the input space
